@@ -24,8 +24,9 @@ namespace Rbacx.Reloader
 abbrev Tag := String
 /-- a policy document, identified by a marker (the harness puts the marker into the document) -/
 abbrev Doc := String
-/-- microseconds -/
-abbrev Time := Int
+/-- `Time`: an instant or a duration in microseconds, an `Int`.  (A notation rather than an
+    `abbrev`, so that `omega` sees plain integer arithmetic.) -/
+scoped notation "Time" => Int
 
 /-- exception classes as the three `except` clauses of `check_and_reload_async` see them
     (everything here derives from `Exception`; `BaseException`s are outside the model) -/
@@ -116,13 +117,18 @@ inductive Pre where
   | load (s : RState) (etag : Option Tag)      -- goes on to `load()`; `etag` is what a publish will record
   | fail (s : RState) (e : Exc)                -- `etag()` raised on the unforced path: error registration is next
 
+/-- forced path: `try: etag = etag() (non-str ⇒ None) except Exception: etag = None` -/
+def forcedTag : Res EtagObs → Option Tag
+  | .ok o => o.toOpt
+  | .raise _ => none
+
 /-- block 2: `etag()` has answered `e`; `last` is the snapshot of `_last_etag` taken in block 1.
     Forced: an exception or a non-str becomes `None`, then load.  Unforced: an exception goes to
     the error path; `etag is not None and etag == last_etag` ⇒ return False; otherwise load. -/
 def afterEtag (force : Bool) (last : Option Tag) (e : Res EtagObs) (s : RState) : Pre :=
   let s1 := { s with etagCalls := s.etagCalls + 1 }
   if force then
-    .load s1 (match e with | .ok o => o.toOpt | .raise _ => none)
+    .load s1 (forcedTag e)
   else
     match e with
     | .raise c => .fail s1 c
@@ -207,13 +213,13 @@ def loadedBy (h : HState) : Event → Option Doc
 def loadedDocs (cfg : Cfg) : HState → List Event → List Doc
   | _, [] => []
   | h, ev :: evs =>
-    (match loadedBy h ev with | some d => [d] | none => []) ++ loadedDocs cfg (stepEvent cfg h ev).1 evs
+    (loadedBy h ev).toList ++ loadedDocs cfg (stepEvent cfg h ev).1 evs
 
 /-- outputs of the checks of a history, in order -/
 def outputs (cfg : Cfg) : HState → List Event → List Out
   | _, [] => []
   | h, ev :: evs =>
-    (match (stepEvent cfg h ev).2 with | some o => [o] | none => []) ++ outputs cfg (stepEvent cfg h ev).1 evs
+    (stepEvent cfg h ev).2.toList ++ outputs cfg (stepEvent cfg h ev).1 evs
 
 /-! ### overlapping checks: small-step semantics over the atomic blocks -/
 
